@@ -622,7 +622,9 @@ def main():
                        "parallel regions: real DistributedConfiguration objects with have_mpi/size/rank set by hand and a no-op Barrier",
                        "static tie (GenC20.v, GenC20b.v): parallel.py's range functions, the three block_distributed helpers, region bookkeeping, "
                        "public region wrappers and the guards of reduce/allreduce are translated statement by statement on every run and proved "
-                       "equal to Model/C20.v / Model/C20regions.v; the MPI calls inside reduce/allreduce are matched as text, not modelled"]
+                       "equal to Model/C20.v / Model/C20regions.v; the MPI calls inside reduce/allreduce are matched as text, not modelled; of the "
+                       "library's own distributed loops (redfieldtensor.py, redfieldrates.py) only the order of their uses of the machinery is "
+                       "extracted (open, distributed loop, all-reduce of an array the loop writes or hands to a call, close), not the loop bodies"]
     chk.prove()
     import translate
     translate.static_tie(cm, chk, PID, cm.REPO)      # second, static tie: model regenerated from the current source
